@@ -171,10 +171,14 @@ CHECKS["C03"] = {
             "empty nonce, foreign nonce, other realm, every single-character substitution / deletion / insertion of a valid nonce, valid credentials of another user on an existing 5-tuple} x server state in "
             "{no allocation, own allocation with permission and channel, other user's allocation}; oracle: never a success response, AllocationCount / relay-socket creations / full probe sweep identical to the "
             "reference model before and after, 401 resp. 438 with NONCE and REALM where the statement names them, the fresh nonce of the last challenge is then accepted and the valid request succeeds; "
-            "nonce managers (NonceHash, ShortNonceHash with every hmacLen 2..32): mint at second offsets {0,1,59}, present at ages around 60 and 61 minutes, future-dated, other instance, all single-character mutations. "
+            "the same defects on Connect (never dialled) and ConnectionBind (the pending connection stays bindable by its owner) over a stream listener; a server without auth handler; a nonce minted at second offset {0,1,59} "
+            "presented through the real server at ages 59 min .. 3 h (accepted up to 60 min, 438 from 61 min); nonce managers (NonceHash, ShortNonceHash with every hmacLen 2..32): mint at second offsets {0,1,59}, present at ages around 60 and 61 minutes, future-dated, other instance, all single-character mutations. "
             "A class is (state, method, defect class) -> response.",
     "parts": [A("server", "./checks/c03", "TestC03Server", budget={"quick": 60, "thorough": 600}),
-              A("nonce", "./checks/c03", "TestC03Nonce", budget={"quick": 60, "thorough": 600})],
+              A("nonce", "./checks/c03", "TestC03Nonce", budget={"quick": 60, "thorough": 600}),
+              A("expiry", "./checks/c03", "TestC03Expiry", budget={"quick": 60, "thorough": 600}),
+              A("noauth", "./checks/c03", "TestC03NoAuth", nshards=1, budget={"quick": 60, "thorough": 60}),
+              A("tcp", "./checks/c03", "TestC03TCP", nshards=2, budget={"quick": 60, "thorough": 60})],
 }
 
 CHECKS["C05"] = {
